@@ -63,9 +63,6 @@ func loadFingerprint(dir string, res *include.ResolvedJournal, errs []include.Lo
 	}
 	var es []string
 	for _, e := range errs {
-		if e.Kind == include.ErrorParseError && e.Path != rootPath {
-			continue // parse errors of included files are dropped by the server
-		}
 		es = append(es, fmt.Sprintf("err:%d:%s:%d:%s", e.Kind, rel(e.Path), e.Range.Start.Line, strings.ReplaceAll(e.Message, dir+"/", "")))
 	}
 	sort.Strings(es)
@@ -141,7 +138,7 @@ var c11AlphabetExt = []string{"load", "load", "edit-invalidate", "edit-clear", "
 func init() {
 	Register(&Prop{
 		ID:    "C11",
-		Rule:  "histories of load(root_i) / edit a file (new include row and content) + InvalidateFile / edit without invalidation followed by ClearCache / ClearCache (random histories also: LoadFromContent of an unsaved buffer, and depth limits 1-4 set on both loaders) on ONE shared loader over 30 fixed 4-file include graphs (chains >= 3 deep, diamonds, cycles below the root); after every load the result (file set, file order, content projection of every journal, load errors with their directive lines) is compared with a fresh loader on the same disk state. All histories of length <= 4 over the 4-operation alphabet are enumerated per graph (thorough: all 30 graphs x 340; quick: a seeded slice), random histories of length 5-6 beyond; server level: open / save included file / change sequences followed by references and completion probes compared with a fresh server on the same disk state. Non-trivial = history containing a load after an edit or a second load; distinct by history+graph hash.",
+		Rule:  "histories of load(root_i) / edit a file (new include row and content) + InvalidateFile / edit without invalidation followed by ClearCache / ClearCache (random histories also: LoadFromContent of an unsaved buffer, and depth limits 1-4 set on both loaders) on ONE shared loader over 30 fixed 4-file include graphs (chains >= 3 deep, diamonds, cycles below the root); after every load the result (file set, file order, content projection of every journal, load errors with their directive lines, parse errors of included files (a third of the file versions has syntax errors)) is compared with a fresh loader on the same disk state. All histories of length <= 4 over the 4-operation alphabet are enumerated per graph (thorough: all 30 graphs x 340; quick: a seeded slice), random histories of length 5-6 beyond; server level: open / save included file / change sequences followed by references and completion probes compared with a fresh server on the same disk state. Non-trivial = history containing a load after an edit or a second load; distinct by history+graph hash.",
 		Notes: []string{"parse errors of included files are excluded (the server drops them)", "every history ends with a load so that its effect is observed"},
 		Cases: func(tier string) int64 {
 			a, b, s := c11Counts(tier)
@@ -164,6 +161,10 @@ func c11WriteFile(g *incGraph, dir string, i int, ver int) {
 		}
 	}
 	fmt.Fprintf(&sb, "\n2019-01-0%d marker f%d v%d\n    m:f%d:v%d  %d USD\n    assets:cash\n", i+1, i, ver, i, ver, ver+1)
+	if (i+ver)%3 == 1 {
+		// some versions of some files carry syntax errors: they are part of the result (diagnostics)
+		fmt.Fprintf(&sb, "\n2019-02-0%d broken f%d v%d\n    m:broken  1 USD @@\n    assets:cash  = = 3\n", i+1, i, ver)
+	}
 	os.WriteFile(p, []byte(sb.String()), 0o644)
 }
 
